@@ -6,6 +6,7 @@ package http3
 
 import (
 	"context"
+	"errors"
 	"io"
 	"sync"
 
@@ -85,6 +86,17 @@ func (c *genericConn) handleUnidirectionalStream(st *stream, h streamHandler) {
 		err = &connectionError{
 			code:    errH3ClosedCriticalStream,
 			message: streamType(stype).String() + " stream closed",
+		}
+	}
+	if err != nil && errors.Is(err, errH3FrameError) {
+		// A malformed or truncated frame is a connection error
+		// (RFC 9114, Section 7.1). Resetting the receive side of a
+		// unidirectional stream would not tell the peer anything.
+		if _, ok := err.(*connectionError); !ok {
+			err = &connectionError{
+				code:    errH3FrameError,
+				message: "invalid HTTP/3 frame on " + streamType(stype).String() + " stream",
+			}
 		}
 	}
 	c.handleStreamError(st, h, err)
